@@ -1,6 +1,1307 @@
-//! C15 — stub (not built yet).
+//! C15 — client transports deliver each answer to its own request, exactly
+//! once.
+//!
+//! Every case builds one client transport over in-process mock peers (see
+//! `mock.rs`), issues N requests with pairwise distinct question names and
+//! lets the peers play a generated fault script per request. Runtime: tokio
+//! current-thread with a paused clock, so every timeout is virtual.
+//!
+//! Oracle (all from the statement of C15):
+//! * every request future resolves within a virtual-time bound derived from
+//!   the configured timeouts/retries (generous: twice the nominal budget plus
+//!   5 s);
+//! * `Ok(msg)`: QR set; ID is one the peer received for this request; the
+//!   question is this request's (or the reply is an error without question);
+//!   the octets are those of a reply a peer emitted *for this request*;
+//! * completeness where the peers' log shows a timely acceptable reply and
+//!   nothing that documents a failure before it;
+//! * a truncated datagram answer is never handed out by `dgram_stream`, and
+//!   the stream leg is used when it works;
+//! * no panic in any task.
+mod mock;
+
 use crate::engine::*;
+use crate::gen::*;
+use crate::refimpl::wire;
+use crate::{vensure, vfail};
+use arbitrary::Unstructured;
+use domain::base::{MessageBuilder, Name, Rtype};
+use domain::net::client::request::{RequestMessage, RequestMessageMulti, SendRequest, SendRequestMulti};
+use domain::net::client::{dgram, dgram_stream, load_balancer, multi_stream, redundant, stream};
+use mock::*;
+use std::collections::{BTreeMap, BTreeSet};
+use std::sync::{Arc, OnceLock};
+use tokio::time::{sleep, sleep_until, timeout, Duration};
+
+type Req = RequestMessage<Vec<u8>>;
+type Sr = Arc<dyn SendRequest<Req> + Send + Sync>;
+
+//------------ Case ------------------------------------------------------------
+
+#[derive(Clone, Copy, Debug, PartialEq, Eq, Hash)]
+enum Tr {
+    Dgram,
+    Stream,
+    Multi,
+    DgStream,
+    Redundant,
+    Lb,
+    /// One stream connection carrying ordinary requests and AXFR requests
+    /// (several responses per request).
+    Xfr,
+}
+
+impl Tr {
+    fn name(self) -> &'static str {
+        match self {
+            Tr::Dgram => "dgram",
+            Tr::Stream => "stream",
+            Tr::Multi => "multi_stream",
+            Tr::DgStream => "dgram_stream",
+            Tr::Redundant => "redundant",
+            Tr::Lb => "load_balancer",
+            Tr::Xfr => "stream_xfr",
+        }
+    }
+}
+
+#[derive(Clone, Copy, Debug, PartialEq, Eq, Hash)]
+enum Issue {
+    /// Milliseconds after the start of the case.
+    At(u32),
+    /// Milliseconds after the previous request completed.
+    AfterPrev(u32),
+}
+
+#[derive(Clone, Debug, Hash)]
+struct Case {
+    tr: Tr,
+    n: usize,
+    issue: Vec<Issue>,
+    init_id: u16,
+    dg_rt: u32,
+    dg_retries: u8,
+    dg_maxpar: usize,
+    dg_opt: bool,
+    st_rt: u32,
+    st_idle: u32,
+    ms_rt: u32,
+    defer_err: bool,
+    defer_refused: bool,
+    defer_servfail: bool,
+    lb_burst: Option<u64>,
+    /// Dgram/Stream/Multi: one entry. DgStream: [0] datagram leg, [1] stream
+    /// leg. Redundant/Lb: one entry per upstream (all datagram).
+    ups: Vec<UpScript>,
+    /// AXFR requests (Tr::Xfr only): issue time in ms and script.
+    xfr: Vec<(u32, XfrScript)>,
+}
+
+const DELAYS: [u32; 11] = [0, 1, 3, 10, 40, 90, 250, 600, 1100, 2500, 6000];
+const DUP_D: [u32; 6] = [0, 1, 20, 150, 700, 3000];
+const GAPS: [u32; 5] = [0, 1, 30, 400, 2500];
+const ISSUE_T: [u32; 8] = [0, 0, 1, 5, 50, 400, 1500, 4000];
+const DG_RT: [u32; 5] = [100, 50, 300, 1000, 2000];
+const ST_RT: [u32; 5] = [1000, 300, 2000, 5000, 19000];
+const ST_IDLE: [u32; 4] = [10000, 0, 100, 1000];
+const MS_RT: [u32; 4] = [2000, 500, 5000, 30000];
+const ST_BUF: [usize; 4] = [65536, 64, 7, 1];
+
+fn dec_emit(u: &mut Unstructured, stream: bool) -> Emit {
+    let kind = if stream {
+        match pick(u, 20) {
+            0..=6 => Kind::Good,
+            7 => Kind::WrongId(3),
+            8 => Kind::WrongQ,
+            9 => Kind::HdrErr(1 + pick(u, 5) as u8),
+            10 => Kind::WrongId(pick(u, 3) as u8),
+            11 => Kind::Close(pick(u, 2) as u8),
+            12 => Kind::NotResp,
+            13 => Kind::Tc,
+            14 => Kind::Garbage(pick(u, 12) as u8),
+            15 => Kind::BadLen,
+            16 => Kind::WrongId(1),
+            17 => Kind::WrongQ,
+            _ => Kind::Good,
+        }
+    } else {
+        match pick(u, 20) {
+            0..=6 => Kind::Good,
+            7 => Kind::WrongId(pick(u, 3) as u8),
+            8 => Kind::WrongQ,
+            9 => Kind::HdrErr(1 + pick(u, 5) as u8),
+            10 => Kind::Tc,
+            11 => Kind::Cross,
+            12 => Kind::NotResp,
+            13 => Kind::Garbage(pick(u, 12) as u8),
+            14 => Kind::RecvErr,
+            15 => Kind::WrongQ,
+            16 => Kind::WrongId(0),
+            _ => Kind::Good,
+        }
+    };
+    let delay = DELAYS[pick(u, DELAYS.len())];
+    let f = byte(u);
+    let dup = if f & 0x07 == 1 && !matches!(kind, Kind::Close(_) | Kind::BadLen | Kind::RecvErr) { Some(DUP_D[pick(u, DUP_D.len())]) } else { None };
+    let (split, gap) = if stream && f & 0x38 == 0x08 { (1 + pick(u, 48) as u16, GAPS[pick(u, GAPS.len())]) } else { (0, 0) };
+    Emit { delay, kind, dup, split, gap }
+}
+
+fn dec_req_script(u: &mut Unstructured, stream: bool, thorough: bool) -> ReqScript {
+    let _ = thorough;
+    let na = 1 + pick(u, 3);
+    let mut attempts = vec![];
+    for _ in 0..na {
+        // 1,1,2,0,3 emissions: silence is possible but not the default
+        let ne = [1usize, 1, 2, 0, 3, 1][pick(u, 6)];
+        attempts.push((0..ne).map(|_| dec_emit(u, stream)).collect());
+    }
+    ReqScript { attempts }
+}
+
+fn dec_up(u: &mut Unstructured, n: usize, stream: bool, thorough: bool) -> UpScript {
+    let mut up = UpScript { st_buf: 65536, ..Default::default() };
+    up.reqs = (0..n).map(|_| dec_req_script(u, stream, thorough)).collect();
+    let f = byte(u);
+    if stream {
+        up.st_buf = ST_BUF[pick(u, ST_BUF.len())];
+        if f & 0x03 == 1 {
+            up.st_fail_connect.push(pick(u, 3) as u32);
+        }
+        if f & 0x0c == 0x04 {
+            up.st_fail_connect.push(pick(u, 4) as u32);
+        }
+        if f & 0x30 == 0x10 {
+            up.st_connect_delay = [1u32, 20, 300, 1500][pick(u, 4)];
+        }
+    } else if f & 0x0f == 1 {
+        up.dg_fail_connect.push(pick(u, 4) as u32);
+    }
+    up
+}
+
+fn decode(data: &[u8], tr: Tr, thorough: bool) -> Case {
+    let mut u = Unstructured::new(data);
+    // The decoding does not depend on the tier (replay files mean the same
+    // in both); large request counts are rare in both tiers.
+    let _ = thorough;
+    let b = byte(&mut u);
+    let n = if tr == Tr::Xfr {
+        [1usize, 2, 0, 3, 4, 6][(b as usize * 6) >> 8]
+    } else if b == 0xff {
+        40
+    } else if b >= 0xfb {
+        20
+    } else {
+        [1usize, 2, 2, 3, 3, 4, 5, 6, 8, 12][(b as usize * 10) / 0xfb]
+    };
+    let mut issue = vec![];
+    for i in 0..n {
+        issue.push(match pick(&mut u, 4) {
+            0 | 1 => Issue::At(0),
+            2 => Issue::At(ISSUE_T[pick(&mut u, ISSUE_T.len())]),
+            _ => {
+                if i > 0 {
+                    Issue::AfterPrev(ISSUE_T[pick(&mut u, ISSUE_T.len())])
+                } else {
+                    Issue::At(0)
+                }
+            }
+        });
+    }
+    let init_id = u16_(&mut u);
+    let dg_rt = DG_RT[pick(&mut u, DG_RT.len())];
+    let dg_retries = pick(&mut u, 4) as u8;
+    let dg_maxpar = [100usize, 1, 2, 3][pick(&mut u, 4)];
+    let dg_opt = !chance(&mut u, 64);
+    let st_rt = ST_RT[pick(&mut u, ST_RT.len())];
+    let st_idle = ST_IDLE[pick(&mut u, ST_IDLE.len())];
+    let ms_rt = MS_RT[pick(&mut u, MS_RT.len())];
+    let f = byte(&mut u);
+    let (defer_err, defer_refused, defer_servfail) = (f & 1 != 0, f & 2 != 0, f & 4 != 0);
+    let lb_burst = if f & 0x30 == 0x10 { Some(pick(&mut u, 4) as u64) } else { None };
+    let ups = match tr {
+        Tr::Dgram => vec![dec_up(&mut u, n, false, thorough)],
+        Tr::Stream | Tr::Multi | Tr::Xfr => vec![dec_up(&mut u, n, true, thorough)],
+        Tr::DgStream => vec![dec_up(&mut u, n, false, thorough), dec_up(&mut u, n, true, thorough)],
+        Tr::Redundant | Tr::Lb => {
+            let k = 1 + pick(&mut u, 3);
+            (0..k).map(|_| dec_up(&mut u, n, false, thorough)).collect()
+        }
+    };
+    let mut xfr = vec![];
+    if tr == Tr::Xfr {
+        let nx = 1 + pick(&mut u, 2);
+        for _ in 0..nx {
+            let at = ISSUE_T[pick(&mut u, ISSUE_T.len())];
+            let nm = 1 + pick(&mut u, 4);
+            let mut msgs = vec![];
+            for _ in 0..nm {
+                let f = byte(&mut u);
+                let (split, gap) = if f & 0x38 == 0x08 { (1 + pick(&mut u, 48) as u16, GAPS[pick(&mut u, GAPS.len())]) } else { (0, 0) };
+                msgs.push(XfrMsg { delay: DELAYS[pick(&mut u, 9)], recs: (f & 3) as u8, with_q: f & 4 == 0, split, gap });
+            }
+            let stall = chance(&mut u, 24);
+            xfr.push((at, XfrScript { msgs, stall }));
+        }
+    }
+    let mut c = Case { tr, n, issue, init_id, dg_rt, dg_retries, dg_maxpar, dg_opt, st_rt, st_idle, ms_rt, defer_err, defer_refused, defer_servfail, lb_burst, ups, xfr };
+    if matches!(tr, Tr::Redundant | Tr::Lb | Tr::DgStream) {
+        // queuing on the datagram semaphore is the subject of the dgram
+        // sub-check; here every upstream request starts at once
+        c.dg_maxpar = 100;
+    }
+    if tr == Tr::Stream || tr == Tr::Xfr {
+        // a single connection: nothing to connect to
+        c.ups[0].st_fail_connect.clear();
+        c.ups[0].st_connect_delay = 0;
+    }
+    if tr == Tr::Xfr {
+        // Replies with a deliberately different ID can carry the ID of a
+        // running transfer, and the transport documents that it does not
+        // compare the question of later messages of a transfer; forged IDs
+        // are the subject of the `stream` sub-check.
+        for r in &mut c.ups[0].reqs {
+            for a in &mut r.attempts {
+                for e in a {
+                    if matches!(e.kind, Kind::WrongId(_)) {
+                        e.kind = Kind::Good;
+                    }
+                }
+            }
+        }
+    }
+    c
+}
+
+fn xfr_names(n: usize) -> Vec<Labels> {
+    (0..n).map(|i| vec![format!("z{i}").into_bytes(), b"c15".to_vec(), b"test".to_vec()]).collect()
+}
+
+fn names(n: usize) -> Vec<Labels> {
+    (0..n).map(|i| vec![format!("q{i}").into_bytes(), b"c15".to_vec(), b"test".to_vec()]).collect()
+}
+
+fn render(c: &Case) -> String {
+    let mut s = format!("{} n={} ", c.tr.name(), c.n);
+    match c.tr {
+        Tr::Dgram => s.push_str(&format!("rt={}ms retries={} maxpar={} ", c.dg_rt, c.dg_retries, c.dg_maxpar)),
+        Tr::Stream | Tr::Xfr => s.push_str(&format!("rt={}ms idle={}ms buf={} ", c.st_rt, c.st_idle, c.ups[0].st_buf)),
+        Tr::Multi => s.push_str(&format!("rt={}ms stream_rt={}ms idle={}ms failconn={:?} ", c.ms_rt, c.st_rt, c.st_idle, c.ups[0].st_fail_connect)),
+        Tr::DgStream => s.push_str(&format!("udp rt={}ms retries={}; tcp rt={}ms ", c.dg_rt, c.dg_retries, c.ms_rt)),
+        Tr::Redundant | Tr::Lb => s.push_str(&format!("upstreams={} rt={}ms retries={} defer={}{}{} burst={:?} ", c.ups.len(), c.dg_rt, c.dg_retries, c.defer_err as u8, c.defer_refused as u8, c.defer_servfail as u8, c.lb_burst)),
+    }
+    for (k, (at, x)) in c.xfr.iter().enumerate() {
+        s.push_str(&format!("| axfr z{k} At({at}) stall={}: ", x.stall));
+        for m in &x.msgs {
+            s.push_str(&format!("[+{}ms recs={} q={} split{}/{}] ", m.delay, m.recs, m.with_q as u8, m.split, m.gap));
+        }
+    }
+    for (ui, up) in c.ups.iter().enumerate() {
+        for (i, r) in up.reqs.iter().enumerate() {
+            s.push_str(&format!("| u{ui} q{i} {:?}: ", c.issue[i]));
+            for (a, at) in r.attempts.iter().enumerate() {
+                s.push_str(&format!("#{a}["));
+                for e in at {
+                    s.push_str(&format!("{:?}@{}", e.kind, e.delay));
+                    if let Some(d) = e.dup {
+                        s.push_str(&format!("+dup{d}"));
+                    }
+                    if e.split > 0 {
+                        s.push_str(&format!("+split{}/{}", e.split, e.gap));
+                    }
+                    s.push(' ');
+                }
+                s.push(']');
+            }
+        }
+    }
+    s
+}
+
+//------------ Running a case ----------------------------------------------------
+
+struct Outcome {
+    /// None: did not resolve within the bound.
+    res: Option<Result<Vec<u8>, String>>,
+    t_issue: u64,
+    t_done: u64,
+    panicked: bool,
+}
+
+fn build_request(name: &Labels, id: u16) -> Req {
+    let mut wirename = vec![];
+    for l in name {
+        wirename.push(l.len() as u8);
+        wirename.extend_from_slice(l);
+    }
+    wirename.push(0);
+    let name = Name::from_octets(wirename).expect("valid name");
+    let mut mb = MessageBuilder::new_vec();
+    mb.header_mut().set_rd(true);
+    mb.header_mut().set_id(id);
+    let mut qb = mb.question();
+    qb.push((name, Rtype::A)).expect("push question");
+    RequestMessage::new(qb.into_message()).expect("request message")
+}
+
+fn dg_config(c: &Case) -> dgram::Config {
+    let mut cfg = dgram::Config::new();
+    cfg.set_read_timeout(Duration::from_millis(c.dg_rt as u64));
+    cfg.set_max_retries(c.dg_retries);
+    cfg.set_max_parallel(c.dg_maxpar);
+    if !c.dg_opt {
+        cfg.set_udp_payload_size(None);
+    }
+    cfg
+}
+
+fn st_config(c: &Case) -> stream::Config {
+    let mut cfg = stream::Config::new();
+    cfg.set_response_timeout(Duration::from_millis(c.st_rt as u64));
+    cfg.set_idle_timeout(Duration::from_millis(c.st_idle as u64));
+    cfg
+}
+
+fn ms_config(c: &Case) -> multi_stream::Config {
+    let mut cfg = multi_stream::Config::from(st_config(c));
+    cfg.set_response_timeout(Duration::from_millis(c.ms_rt as u64));
+    cfg
+}
+
+/// Longest time (ms) a peer keeps acting after it received a request.
+fn peer_span(c: &Case) -> u64 {
+    let mut m = 0u64;
+    for up in &c.ups {
+        for r in &up.reqs {
+            for a in &r.attempts {
+                // emissions of one attempt are written one after the other
+                let mut s = 0u64;
+                let mut d = 0u64;
+                for e in a {
+                    d = d.max(e.delay as u64 + e.dup.unwrap_or(0) as u64);
+                    s += e.gap as u64;
+                }
+                m = m.max(d + s);
+            }
+        }
+    }
+    for (_, x) in &c.xfr {
+        m = m.max(x.msgs.iter().map(|m| m.delay as u64 + m.gap as u64).sum());
+    }
+    m
+}
+
+/// Virtual-time bound (ms) for one request, counted from the moment it is
+/// issued: twice the nominal budget of the transport plus 5 s.
+fn bound_ms(c: &Case) -> u64 {
+    let n = (c.n + c.xfr.len()) as u64;
+    let dg_per = (c.dg_retries as u64 + 1) * c.dg_rt as u64;
+    let span = peer_span(c);
+    let issue_sum: u64 = c.issue.iter().map(|i| match i { Issue::At(t) | Issue::AfterPrev(t) => *t as u64 }).sum::<u64>() + c.xfr.iter().map(|x| x.0 as u64).sum::<u64>();
+    let nominal = match c.tr {
+        // requests queue on the semaphore: at most n budgets in a row
+        Tr::Dgram => n * dg_per,
+        // the connection timer restarts whenever a message arrives; every
+        // request adds at most its issue delay, the peer's activity span and
+        // one response timeout to the time line
+        Tr::Stream | Tr::Xfr => issue_sum + n * (span + c.st_rt as u64),
+        Tr::Multi => c.ms_rt as u64,
+        Tr::DgStream => dg_per + c.ms_rt as u64,
+        // every probe step ends at the latest when that upstream finishes
+        Tr::Redundant | Tr::Lb => (c.ups.len() as u64 + 1) * dg_per,
+    };
+    2 * nominal + 5000
+}
+
+async fn drive(c: &Case, w: &Arc<World>, sr: Sr) -> Vec<Outcome> {
+    let bound = Duration::from_millis(bound_ms(c));
+    let mut done_tx = vec![];
+    let mut done_rx = vec![];
+    for _ in 0..c.n {
+        let (tx, rx) = tokio::sync::watch::channel(false);
+        done_tx.push(tx);
+        done_rx.push(rx);
+    }
+    let mut handles = vec![];
+    for (i, tx) in done_tx.into_iter().enumerate() {
+        let sr = sr.clone();
+        let w = w.clone();
+        let issue = c.issue[i];
+        let id = c.init_id;
+        let prev = if i > 0 { Some(done_rx[i - 1].clone()) } else { None };
+        handles.push(tokio::spawn(async move {
+            match issue {
+                Issue::At(ms) => sleep_until(w.at(ms as u64 * 1000)).await,
+                Issue::AfterPrev(ms) => {
+                    if let Some(mut p) = prev {
+                        let _ = p.wait_for(|d| *d).await;
+                    }
+                    sleep(Duration::from_millis(ms as u64)).await;
+                }
+            }
+            let req = build_request(&w.names[i], id);
+            let t_issue = w.now();
+            let mut gr = sr.send_request(req);
+            let r = timeout(bound, gr.get_response()).await;
+            let t_done = w.now();
+            drop(gr);
+            let _ = tx.send(true);
+            let res = match r {
+                Err(_) => None,
+                Ok(Ok(m)) => Some(Ok(m.as_slice().to_vec())),
+                Ok(Err(e)) => Some(Err(format!("{e:?}"))),
+            };
+            Outcome { res, t_issue, t_done, panicked: false }
+        }));
+    }
+    drop(sr);
+    let mut out = vec![];
+    for h in handles {
+        match h.await {
+            Ok(o) => out.push(o),
+            Err(_) => out.push(Outcome { res: None, t_issue: 0, t_done: 0, panicked: true }),
+        }
+    }
+    out
+}
+
+#[derive(Debug, PartialEq)]
+enum XfrEnd {
+    Eof,
+    Err(String),
+    Hang,
+    Panic,
+}
+
+struct XfrOutcome {
+    msgs: Vec<Vec<u8>>,
+    end: XfrEnd,
+    t_done: u64,
+}
+
+fn build_axfr_request(name: &Labels) -> RequestMessageMulti<Vec<u8>> {
+    let mut wirename = vec![];
+    for l in name {
+        wirename.push(l.len() as u8);
+        wirename.extend_from_slice(l);
+    }
+    wirename.push(0);
+    let name = Name::from_octets(wirename).expect("valid name");
+    let mut qb = MessageBuilder::new_vec().question();
+    qb.push((name, Rtype::AXFR)).expect("push question");
+    RequestMessageMulti::new(qb.into_message()).expect("axfr request message")
+}
+
+fn run_world(c: &Case) -> (Vec<Outcome>, Vec<XfrOutcome>, Arc<World>) {
+    block_on_paused(async {
+        let w = World::with_xfr(names(c.n), c.ups.clone(), xfr_names(c.xfr.len()), c.xfr.iter().map(|x| x.1.clone()).collect());
+        let mut bg = vec![];
+        let mut xfr_handles = vec![];
+        let sr: Sr = match c.tr {
+            Tr::Dgram => Arc::new(dgram::Connection::with_config(DgConnect { w: w.clone(), up: 0 }, dg_config(c))),
+            Tr::Stream => {
+                let client = open_stream(&w, 0, 0);
+                let (conn, tr) = stream::Connection::<Req, RequestMessageMulti<Vec<u8>>>::with_config(client, st_config(c));
+                bg.push(tokio::spawn(tr.run()));
+                Arc::new(conn)
+            }
+            Tr::Xfr => {
+                let client = open_stream(&w, 0, 0);
+                let (conn, tr) = stream::Connection::<Req, RequestMessageMulti<Vec<u8>>>::with_config(client, st_config(c));
+                bg.push(tokio::spawn(tr.run()));
+                let bound = Duration::from_millis(bound_ms(c));
+                for (k, (at, _)) in c.xfr.iter().enumerate() {
+                    let conn = conn.clone();
+                    let w = w.clone();
+                    let at = *at;
+                    xfr_handles.push(tokio::spawn(async move {
+                        sleep_until(w.at(at as u64 * 1000)).await;
+                        let mut gr = SendRequestMulti::send_request(&conn, build_axfr_request(&w.xfr_names[k]));
+                        drop(conn);
+                        let mut msgs = vec![];
+                        let end = loop {
+                            match timeout(bound, gr.get_response()).await {
+                                Err(_) => break XfrEnd::Hang,
+                                Ok(Ok(Some(m))) => msgs.push(m.as_slice().to_vec()),
+                                Ok(Ok(None)) => break XfrEnd::Eof,
+                                Ok(Err(e)) => break XfrEnd::Err(format!("{e:?}")),
+                            }
+                        };
+                        XfrOutcome { msgs, end, t_done: w.now() }
+                    }));
+                }
+                Arc::new(conn)
+            }
+            Tr::Multi => {
+                let (conn, tr) = multi_stream::Connection::<Req>::with_config(StConnect { w: w.clone(), up: 0 }, ms_config(c));
+                bg.push(tokio::spawn(tr.run()));
+                Arc::new(conn)
+            }
+            Tr::DgStream => {
+                let cfg = dgram_stream::Config::from_parts(dg_config(c), ms_config(c));
+                let (conn, tr) = dgram_stream::Connection::<_, Req>::with_config(DgConnect { w: w.clone(), up: 0 }, StConnect { w: w.clone(), up: 1 }, cfg);
+                bg.push(tokio::spawn(tr.run()));
+                Arc::new(conn)
+            }
+            Tr::Redundant => {
+                let mut cfg = redundant::Config::default();
+                cfg.set_defer_transport_error(c.defer_err);
+                cfg.set_defer_refused(c.defer_refused);
+                cfg.set_defer_servfail(c.defer_servfail);
+                let (conn, tr) = redundant::Connection::<Req>::with_config(cfg);
+                bg.push(tokio::spawn(tr.run()));
+                for up in 0..c.ups.len() {
+                    let d = dgram::Connection::with_config(DgConnect { w: w.clone(), up }, dg_config(c));
+                    conn.add(Box::new(d)).await.expect("add upstream");
+                }
+                Arc::new(conn)
+            }
+            Tr::Lb => {
+                let mut cfg = load_balancer::Config::default();
+                cfg.set_defer_transport_error(c.defer_err);
+                cfg.set_defer_refused(c.defer_refused);
+                cfg.set_defer_servfail(c.defer_servfail);
+                let (conn, tr) = load_balancer::Connection::<Req>::with_config(cfg);
+                bg.push(tokio::spawn(tr.run()));
+                for up in 0..c.ups.len() {
+                    let d = dgram::Connection::with_config(DgConnect { w: w.clone(), up }, dg_config(c));
+                    let mut cc = load_balancer::ConnConfig::new();
+                    cc.set_max_burst(c.lb_burst);
+                    conn.add(&format!("up{up}"), &cc, Box::new(d)).await.expect("add upstream");
+                }
+                Arc::new(conn)
+            }
+        };
+        let out = drive(c, &w, sr).await;
+        let mut xout = vec![];
+        for h in xfr_handles {
+            match h.await {
+                Ok(o) => xout.push(o),
+                Err(_) => xout.push(XfrOutcome { msgs: vec![], end: XfrEnd::Panic, t_done: 0 }),
+            }
+        }
+        // all connection handles are gone now: give the transports a chance
+        // to wind down (a panic there is caught by the engine's hook)
+        for h in bg {
+            let _ = timeout(Duration::from_secs(120), h).await;
+        }
+        (out, xout, w)
+    })
+}
+
+//------------ Oracle helpers ------------------------------------------------------
+
+/// The statement's notion of "answers this request", decided with the
+/// independent walker. `strict` additionally demands what the library's
+/// documented `is_answer` demands (used only for completeness claims).
+fn acceptable(msg: &[u8], name: &Labels, id: u16, strict: bool) -> Result<(), &'static str> {
+    let Some(h) = wire::header(msg) else { return Err("short") };
+    if !h.qr() {
+        return Err("qr-clear");
+    }
+    if h.id != id {
+        return Err("wrong-id");
+    }
+    if h.counts[0] == 0 {
+        if h.rcode() == 0 {
+            return Err("noerror-without-question");
+        }
+        if strict && (h.counts[1] != 0 || h.counts[2] != 0 || h.counts[3] != 0) {
+            return Err("error-without-question-but-records");
+        }
+        return Ok(());
+    }
+    let Some(wk) = wire::walk(msg) else { return Err("short") };
+    if h.counts[0] != 1 || wk.questions.len() != 1 {
+        return Err("wrong-question");
+    }
+    let q = &wk.questions[0];
+    if q.name != *name || q.qtype != QTYPE_A || q.qclass != CLASS_IN {
+        return Err("wrong-question");
+    }
+    if strict && wk.error.is_some() {
+        return Err("malformed");
+    }
+    Ok(())
+}
+
+#[derive(Debug, Clone)]
+enum Pred {
+    /// The datagram transport must hand out a reply; the first acceptable
+    /// one is emission `idx` of attempt `attempt`.
+    MustOk { attempt: u32, idx: usize, tc: bool, only_tc: bool },
+    NoClaim,
+}
+
+/// Static prediction for one request on a datagram upstream, from the
+/// script alone (exact as long as connects do not fail: replies for other
+/// requests never carry this request's question).
+fn dgram_predict(s: &ReqScript, rt_ms: u32, retries: u8) -> Pred {
+    const M: u64 = 3;
+    let rt = rt_ms as u64;
+    for a in 0..=retries as u32 {
+        let em = s.attempt(a);
+        let mut items: Vec<(u64, usize, usize)> = vec![];
+        for (idx, e) in em.iter().enumerate() {
+            items.push((e.delay as u64, items.len(), idx));
+            if let Some(d) = e.dup {
+                items.push((e.delay as u64 + d as u64, items.len(), idx));
+            }
+        }
+        items.sort();
+        let acc = |k: &Kind| matches!(k, Kind::Good | Kind::Tc | Kind::HdrErr(_));
+        for (t, _, idx) in &items {
+            let k = &em[*idx].kind;
+            if *t > rt + M {
+                break;
+            }
+            if *t + M >= rt {
+                if acc(k) || *k == Kind::RecvErr {
+                    return Pred::NoClaim;
+                }
+                continue;
+            }
+            if *k == Kind::RecvErr {
+                return Pred::NoClaim;
+            }
+            if acc(k) {
+                let tc = *k == Kind::Tc;
+                // is every acceptable reply of this attempt truncated?
+                let only_tc = em.iter().all(|e| !acc(&e.kind) || e.kind == Kind::Tc);
+                return Pred::MustOk { attempt: a, idx: *idx, tc, only_tc };
+            }
+        }
+    }
+    Pred::NoClaim
+}
+
+/// Dynamic claim for request `i` on the stream leg of upstream `up`, from
+/// the peers' log: returns the eid of the reply that must be delivered.
+///
+/// Soundness argument: a stream is FIFO and the transport looks replies up
+/// by ID, so the first message carrying the ID the peer received for the
+/// request, emitted after the request was received, is the one that
+/// completes it — unless the connection died first. The connection's
+/// response timer is restarted by every arriving message and is never older
+/// than the last arrival (or the first request), so it cannot have fired
+/// before `a + T`.
+fn stream_claim(ev: &[Ev], names: &[Labels], up: usize, i: usize, t_stream_ms: u64, deadline_us: Option<u64>) -> Option<u32> {
+    const M: u64 = 3000;
+    let conns: BTreeSet<usize> = ev.iter().filter(|e| e.up == up && e.leg == Leg::St).map(|e| e.conn).collect();
+    for c in conns {
+        let evs: Vec<&Ev> = ev.iter().filter(|e| e.up == up && e.leg == Leg::St && e.conn == c).collect();
+        let Some(p) = evs.iter().position(|e| matches!(&e.what, What::Recv { req: Some(r), .. } if *r == i)) else { continue };
+        let What::Recv { id: x, .. } = &evs[p].what else { unreachable!() };
+        let first_recv_t = evs.iter().find(|e| matches!(e.what, What::Recv { .. })).map(|e| e.t).unwrap_or(0);
+        let t_recv = evs[p].t;
+        let mut last_arr: Option<u64> = None;
+        let mut dead = false;
+        for e in &evs[..p] {
+            match &e.what {
+                What::Poison(_) => dead = true,
+                What::Emit { bytes, done, .. } => {
+                    if bytes.len() < 12 || done.is_none() {
+                        dead = true;
+                    } else {
+                        // A reply the peer started to write before it saw
+                        // this request but finished (frame split) at or
+                        // after that moment reaches the transport when the
+                        // request may already hold the (recycled) ID: the
+                        // FIFO argument does not apply.
+                        if wire::header(bytes).map(|h| h.id) == Some(*x) && done.unwrap() + 1000 >= t_recv {
+                            return None;
+                        }
+                        last_arr = *done;
+                    }
+                }
+                _ => {}
+            }
+        }
+        if dead {
+            continue;
+        }
+        for e in &evs[p + 1..] {
+            match &e.what {
+                What::Poison(_) => break,
+                What::Emit { bytes, done, eid, .. } => {
+                    if bytes.len() < 12 {
+                        break;
+                    }
+                    let Some(d) = *done else { return None };
+                    let hid = wire::header(bytes).map(|h| h.id).unwrap_or(0);
+                    if hid == *x {
+                        let a = last_arr.unwrap_or(first_recv_t);
+                        let in_time = d + M < a + t_stream_ms * 1000 && deadline_us.map_or(true, |dl| d + M < dl);
+                        if in_time && acceptable(bytes, &names[i], *x, true).is_ok() {
+                            return Some(*eid);
+                        }
+                        return None;
+                    }
+                    last_arr = Some(d);
+                }
+                _ => {}
+            }
+        }
+    }
+    None
+}
+
+fn find_emit<'a>(ev: &'a [Ev], pred: impl Fn(&Ev) -> bool) -> Option<&'a Ev> {
+    ev.iter().find(|e| matches!(e.what, What::Emit { .. }) && pred(e))
+}
+
+//------------ The check --------------------------------------------------------------
+
+/// Tallies of labels that depend on what the library did with its own
+/// random numbers (multi_stream retry back-off, redundant/load_balancer
+/// probing): kept out of the class histogram, which is a pure function of
+/// the seed, and reported under `randomness_dependent_tallies`.
+static TALLY: std::sync::Mutex<BTreeMap<String, u64>> = std::sync::Mutex::new(BTreeMap::new());
+
+/// Records a label derived from the observed run (not from the script).
+fn dynclass(ctx: &mut Ctx, tr: Tr, label: String) {
+    if matches!(tr, Tr::Dgram | Tr::Stream | Tr::Xfr) {
+        ctx.class(label);
+    } else {
+        *TALLY.lock().unwrap().entry(label).or_default() += 1;
+    }
+}
+
+fn extra(_opts: &RunOpts, agg: &mut Agg) -> Result<(), (Violation, Vec<u8>)> {
+    let t = TALLY.lock().unwrap().clone();
+    agg.extra_notes.insert("randomness_dependent_tallies".into(), serde_json::json!(t));
+    Ok(())
+}
+
+fn classes(c: &Case, ctx: &mut Ctx) -> bool {
+    let t = c.tr.name();
+    let mut faulty = false;
+    let mut kinds: BTreeSet<&'static str> = BTreeSet::new();
+    for up in &c.ups {
+        for r in &up.reqs {
+            for a in &r.attempts {
+                if a.is_empty() {
+                    kinds.insert("never-reply");
+                }
+                for e in a {
+                    kinds.insert(match e.kind {
+                        Kind::Good => "good",
+                        Kind::Tc => "tc",
+                        Kind::HdrErr(_) => "header-only-error",
+                        Kind::WrongId(3) => "wrong-id-of-other-request",
+                        Kind::WrongId(_) => "wrong-id",
+                        Kind::WrongQ => "wrong-question",
+                        Kind::NotResp => "qr-clear",
+                        Kind::Garbage(_) => "garbage-short",
+                        Kind::Cross => "cross-delivery",
+                        Kind::RecvErr => "recv-error",
+                        Kind::Close(_) => "close",
+                        Kind::BadLen => "bad-length-then-close",
+                        Kind::Xfr(..) => "axfr",
+                    });
+                    if matches!(e.kind, Kind::WrongId(_) | Kind::WrongQ | Kind::Close(_) | Kind::Cross | Kind::BadLen) {
+                        faulty = true;
+                    }
+                    if e.dup.is_some() {
+                        kinds.insert(if e.dup == Some(0) { "duplicate-same-segment" } else { "duplicate" });
+                        faulty = true;
+                    }
+                    if e.split > 0 {
+                        kinds.insert("frame-split");
+                    }
+                }
+            }
+        }
+        if !up.dg_fail_connect.is_empty() || !up.st_fail_connect.is_empty() {
+            kinds.insert("connect-failure");
+        }
+    }
+    // reorder: two requests issued at fixed times whose first replies come
+    // back in the opposite order
+    let first_delay = |i: usize| c.ups[0].reqs[i].attempts.first().and_then(|a| a.iter().map(|e| e.delay).min());
+    'outer: for i in 0..c.n {
+        for j in i + 1..c.n {
+            if let (Issue::At(ti), Issue::At(tj), Some(di), Some(dj)) = (c.issue[i], c.issue[j], first_delay(i), first_delay(j)) {
+                if ti <= tj && ti + di > tj + dj {
+                    kinds.insert("reorder");
+                    faulty = true;
+                    break 'outer;
+                }
+            }
+        }
+    }
+    for (_, x) in &c.xfr {
+        ctx.class(format!("{t}:axfr-{}-messages", x.msgs.len().min(4)));
+        if x.stall {
+            ctx.class(format!("{t}:axfr-stalls"));
+        }
+        if x.msgs.iter().skip(1).any(|m| !m.with_q) {
+            ctx.class(format!("{t}:axfr-later-message-without-question"));
+        }
+        if c.n > 0 {
+            ctx.class(format!("{t}:axfr-with-ordinary-requests"));
+        }
+    }
+    if c.issue.iter().any(|i| matches!(i, Issue::AfterPrev(_))) {
+        kinds.insert("sequential-issue");
+    }
+    if c.n >= 2 {
+        kinds.insert("concurrent");
+    }
+    if c.n >= 9 {
+        kinds.insert("more-requests-than-channel-capacity");
+    }
+    for k in kinds {
+        ctx.class(format!("{t}:{k}"));
+    }
+    (c.n + c.xfr.len()) >= 2 && (faulty || !c.xfr.is_empty())
+}
+
+fn check(c: &Case, ctx: &mut Ctx) -> CaseResult {
+    let t = c.tr.name();
+    let nontrivial = classes(c, ctx);
+    if nontrivial {
+        ctx.nontrivial(c);
+    }
+    ctx.sample(|| render(c));
+
+    let (out, xout, w) = run_world(c);
+    let inner = w.inner.lock().unwrap();
+    let ev = &inner.events;
+    let names = &w.names;
+
+    // 0. no task may panic
+    let ps = take_panics();
+    if let Some(p) = ps.first() {
+        return Err(Violation::new(panic_sig(p), format!("panic while running {}: {p}", render(c))));
+    }
+    vensure!(out.iter().all(|o| !o.panicked), format!("{t}:request-task-panicked"), "a request task panicked in {}", render(c));
+
+    // 1. every request completes within the bound
+    for (i, o) in out.iter().enumerate() {
+        vensure!(
+            o.res.is_some(),
+            format!("{t}:no-completion-within-budget"),
+            "request {i} (issued at {} us) did not resolve within {} ms of virtual time; case: {}",
+            o.t_issue,
+            bound_ms(c),
+            render(c)
+        );
+    }
+
+    // 2. what was handed out answers the caller's own request
+    let mut ok_from: Vec<Option<&Ev>> = vec![None; c.n];
+    for (i, o) in out.iter().enumerate() {
+        let Some(Ok(msg)) = &o.res else { continue };
+        let same: Vec<&Ev> = ev.iter().filter(|e| matches!(&e.what, What::Emit { bytes, delivered: true, .. } if bytes == msg)).collect();
+        if same.is_empty() {
+            // the load balancer documents nothing here, but it answers
+            // SERVFAIL by itself when every upstream is over its burst limit
+            if c.tr == Tr::Lb && c.lb_burst.is_some() {
+                let h = wire::header(msg);
+                let own_q = wire::walk(msg).map(|k| k.questions.len() == 1 && k.questions[0].name == names[i]).unwrap_or(false);
+                if h.as_ref().map(|h| h.rcode() == 2 && h.id == c.init_id && h.counts[1] == 0).unwrap_or(false) && own_q {
+                    dynclass(ctx, c.tr, format!("{t}:local-servfail-burst-limit"));
+                    continue;
+                }
+            }
+            vfail!(format!("{t}:invented-reply"), "request {i} got a message no peer emitted: {:02x?}; case: {}", msg, render(c));
+        }
+        // Whom a message answers is decided by its content (ID and question),
+        // not by which request made the peer send it: a reply the peer sent
+        // because of request A that carries B's ID and B's question is, by
+        // the statement, an answer to B.
+        let h = wire::header(msg).expect("emitted replies of 12+ octets");
+        // IDs the peer received for this request on the connection (socket)
+        // a candidate emission was sent on. Header-only errors with the same
+        // ID are byte-identical, so several emissions can be candidates; the
+        // delivery is fine if one of them explains it.
+        let ids_on = |e: &Ev| -> BTreeSet<u16> {
+            ev.iter()
+                .filter(|x| x.up == e.up && x.leg == e.leg && x.conn == e.conn)
+                .filter_map(|x| match &x.what {
+                    What::Recv { req: Some(r), id, .. } if *r == i => Some(*id),
+                    _ => None,
+                })
+                .collect()
+        };
+        // A stream peer that has closed (or was cut off) no longer reads:
+        // the transport may have given the request an ID the peer never
+        // saw, and a reply already in flight can legitimately carry it. The
+        // ID is then not observable; the question is still checked.
+        let id_observable = |e: &Ev| e.leg == Leg::Dg || !ev.iter().any(|x| x.up == e.up && x.leg == Leg::St && x.conn == e.conn && matches!(x.what, What::Poison(_)));
+        let explaining: Vec<&Ev> = same.iter().copied().filter(|e| !id_observable(e) || ids_on(e).contains(&h.id)).collect();
+        // (a stream reply can by chance be byte-identical to a datagram
+        // reply: prefer the stream one, it is the one dgram_stream may return)
+        let explained = explaining.iter().copied().find(|e| e.leg == Leg::St).or(explaining.first().copied());
+        let e0: &Ev = explained.unwrap_or_else(|| same.iter().find(|e| matches!(&e.what, What::Emit { for_req, .. } if *for_req == i)).copied().unwrap_or(same[0]));
+        ok_from[i] = Some(e0);
+        let What::Emit { kind, .. } = &e0.what else { unreachable!() };
+        let ids = ids_on(e0);
+        vensure!(h.qr(), format!("{t}:non-response-delivered"), "request {i} got a message with QR clear ({kind:?}); case: {}", render(c));
+        vensure!(explained.is_some(), format!("{t}:reply-with-foreign-id-delivered"), "request {i} got a reply with ID {} but the peer received IDs {:?} for it ({kind:?}); case: {}", h.id, ids, render(c));
+        if let Err(why) = acceptable(msg, &names[i], h.id, false) {
+            vfail!(format!("{t}:{why}-delivered"), "request {i} got a reply that does not answer it ({why}, {kind:?}); case: {}", render(c));
+        }
+        if c.tr == Tr::DgStream && e0.leg == Leg::Dg {
+            vensure!(!h.tc(), "dgram_stream:truncated-datagram-reply-returned", "request {i} got the truncated datagram reply instead of a retry over the stream; case: {}", render(c));
+        }
+    }
+
+    // 3. completeness
+    let fail_not_delivered = |i: usize, why: &str, o: &Outcome| -> CaseResult {
+        Err(Violation::new(
+            format!("{t}:timely-reply-not-delivered"),
+            format!("request {i}: {why}, but the caller got {:?} at {} us; case: {}", o.res.as_ref().map(|r| r.as_ref().map(|_| "Ok").map_err(|e| e.clone())), o.t_done, render(c)),
+        ))
+    };
+    let dg_clean = |up: usize| c.ups[up].dg_fail_connect.is_empty();
+    match c.tr {
+        Tr::Dgram => {
+            if dg_clean(0) {
+                for (i, o) in out.iter().enumerate() {
+                    if let Pred::MustOk { attempt, idx, .. } = dgram_predict(&c.ups[0].reqs[i], c.dg_rt, c.dg_retries) {
+                        ctx.class("dgram:claim-must-ok");
+                        if attempt > 0 {
+                            ctx.class("dgram:claim-needs-retry");
+                        }
+                        if !matches!(o.res, Some(Ok(_))) {
+                            return fail_not_delivered(i, &format!("attempt {attempt} gets acceptable reply #{idx} before the read timeout"), o);
+                        }
+                    }
+                }
+            }
+        }
+        Tr::Stream | Tr::Multi | Tr::Xfr => {
+            for (i, o) in out.iter().enumerate() {
+                let deadline = if c.tr == Tr::Multi { Some(o.t_issue + c.ms_rt as u64 * 1000) } else { None };
+                if let Some(eid) = stream_claim(ev, names, 0, i, c.st_rt as u64, deadline) {
+                    dynclass(ctx, c.tr, format!("{t}:claim-must-ok"));
+                    if !matches!(o.res, Some(Ok(_))) {
+                        return fail_not_delivered(i, &format!("emission {eid} is the first reply with the request's ID on a live connection, acceptable and in time"), o);
+                    }
+                }
+            }
+        }
+        Tr::DgStream => {
+            if dg_clean(0) {
+                for (i, o) in out.iter().enumerate() {
+                    let Pred::MustOk { attempt, idx, tc, only_tc } = dgram_predict(&c.ups[0].reqs[i], c.dg_rt, c.dg_retries) else { continue };
+                    if !tc {
+                        ctx.class("dgram_stream:claim-must-ok-udp");
+                        if !matches!(o.res, Some(Ok(_))) {
+                            return fail_not_delivered(i, &format!("datagram attempt {attempt} gets acceptable reply #{idx} before the read timeout"), o);
+                        }
+                        continue;
+                    }
+                    if !only_tc {
+                        continue;
+                    }
+                    // the truncated reply is the first acceptable one: the
+                    // request must move to the stream
+                    let Some(tc_ev) = find_emit(ev, |e| e.leg == Leg::Dg && matches!(&e.what, What::Emit { for_req, attempt: a, idx: k, delivered: true, .. } if *for_req == i && *a == attempt && *k == idx)) else { continue };
+                    ctx.class("dgram_stream:tc-fallback-expected");
+                    let stream_works = c.ups[1].st_fail_connect.is_empty() && (c.ups[1].st_connect_delay as u64 + 5) < c.ms_rt as u64;
+                    let seen = ev.iter().any(|e| e.up == 1 && e.leg == Leg::St && matches!(&e.what, What::Recv { req: Some(r), .. } if *r == i));
+                    if stream_works && c.ups[1].st_buf >= 512 {
+                        vensure!(seen, "dgram_stream:truncated-reply-not-retried-over-stream", "request {i}: truncated datagram reply at {} us but the stream peer never saw the request; case: {}", tc_ev.t, render(c));
+                    }
+                    let deadline = tc_ev.t + c.ms_rt as u64 * 1000;
+                    if let Some(eid) = stream_claim(ev, names, 1, i, c.st_rt as u64, Some(deadline)) {
+                        dynclass(ctx, c.tr, "dgram_stream:claim-must-ok-tcp".into());
+                        if !matches!(o.res, Some(Ok(_))) {
+                            return fail_not_delivered(i, &format!("after the truncated datagram reply, stream emission {eid} is acceptable and in time"), o);
+                        }
+                        let from_stream = ok_from[i].map(|e| e.leg == Leg::St).unwrap_or(false);
+                        vensure!(from_stream, "dgram_stream:stream-answer-not-returned", "request {i}: result does not come from the stream leg; case: {}", render(c));
+                    }
+                }
+            }
+        }
+        Tr::Redundant | Tr::Lb => {
+            if (0..c.ups.len()).all(dg_clean) {
+                for (i, o) in out.iter().enumerate() {
+                    let preds: Vec<bool> = (0..c.ups.len()).map(|u| matches!(dgram_predict(&c.ups[u].reqs[i], c.dg_rt, c.dg_retries), Pred::MustOk { .. })).collect();
+                    let all = preds.iter().all(|p| *p);
+                    let any = preds.iter().any(|p| *p);
+                    // Without deferring, the first upstream to finish decides;
+                    // with `defer_transport_error` an error is only reported
+                    // when no upstream delivers a reply.
+                    if all || (any && c.defer_err && c.lb_burst.is_none()) {
+                        ctx.class(format!("{t}:claim-must-ok"));
+                        if !all {
+                            ctx.class(format!("{t}:claim-must-ok-despite-failing-upstream"));
+                        }
+                        if !matches!(o.res, Some(Ok(_))) {
+                            return fail_not_delivered(i, &format!("upstreams predicted to answer: {preds:?}, defer_transport_error={}", c.defer_err), o);
+                        }
+                    }
+                }
+            }
+        }
+    }
+
+    // 4. response streams (AXFR): what the caller gets is exactly what the
+    // peer sent for this transfer, in order
+    for (k, xo) in xout.iter().enumerate() {
+        let r = c.n + k;
+        vensure!(xo.end != XfrEnd::Panic, "stream_xfr:request-task-panicked", "axfr task panicked; case: {}", render(c));
+        vensure!(xo.end != XfrEnd::Hang, "stream_xfr:no-completion-within-budget", "axfr request {k}: get_response did not resolve within {} ms after {} messages; case: {}", bound_ms(c), xo.msgs.len(), render(c));
+        let emitted: Vec<&Ev> = ev.iter().filter(|e| matches!(&e.what, What::Emit { for_req, kind: Kind::Xfr(..), .. } if *for_req == r)).collect();
+        let xid = ev.iter().find_map(|e| match &e.what {
+            What::Recv { req: Some(q), id, .. } if *q == r => Some(*id),
+            _ => None,
+        });
+        let mut j = 0usize;
+        for (m_idx, m) in xo.msgs.iter().enumerate() {
+            if emitted.get(j).map(|e| matches!(&e.what, What::Emit { bytes, .. } if bytes == m)).unwrap_or(false) {
+                j += 1;
+                continue;
+            }
+            // "a header-only error reply needs only the ID": such a reply
+            // (whatever made the peer send it) legitimately ends the transfer
+            let emitted_at_all = ev.iter().any(|e| matches!(&e.what, What::Emit { bytes, .. } if bytes == m));
+            if let (Some(x), Some(h)) = (xid, wire::header(m)) {
+                if emitted_at_all && m.len() == 12 && h.qr() && h.rcode() != 0 && h.id == x && m_idx + 1 == xo.msgs.len() {
+                    ctx.class("stream_xfr:ended-by-header-only-error-with-own-id");
+                    continue;
+                }
+            }
+            let whose = ev.iter().find_map(|e| match &e.what {
+                What::Emit { bytes, for_req, kind, .. } if bytes == m => Some(format!("emitted for request {for_req} as {kind:?}")),
+                _ => None,
+            });
+            vfail!("stream_xfr:foreign-or-out-of-order-message-in-response-stream", "axfr request {k}: message #{m_idx} handed to the caller is not message #{j} of the peer's response stream ({}); case: {}", whose.unwrap_or_else(|| "never emitted".into()), render(c));
+        }
+        // completeness on a clean connection
+        let script = &c.xfr[k].1;
+        let Some(p) = ev.iter().position(|e| matches!(&e.what, What::Recv { req: Some(q), .. } if *q == r)) else { continue };
+        let What::Recv { id: x, .. } = &ev[p].what else { unreachable!() };
+        let mut clean = !script.stall && emitted.len() == script.msgs.len();
+        let first_recv_t = ev.iter().find(|e| matches!(e.what, What::Recv { .. })).map(|e| e.t).unwrap_or(0);
+        let mut last_arr: Option<u64> = None;
+        let mut seen = 0usize;
+        for (pos, e) in ev.iter().enumerate() {
+            if seen == emitted.len() {
+                break;
+            }
+            match &e.what {
+                What::Poison(_) => clean = false,
+                What::Emit { bytes, done, for_req, kind, .. } => {
+                    let Some(d) = *done else {
+                        clean = false;
+                        continue;
+                    };
+                    let mine = *for_req == r && matches!(kind, Kind::Xfr(..));
+                    if bytes.len() < 12 {
+                        clean = false;
+                    } else if !mine && wire::header(bytes).map(|h| h.id) == Some(*x) && (pos > p || d + 1000 >= ev[p].t) {
+                        // something else carries the transfer's ID
+                        clean = false;
+                    }
+                    if mine {
+                        let a = last_arr.unwrap_or(first_recv_t);
+                        if d + 3000 >= a + c.st_rt as u64 * 1000 {
+                            clean = false;
+                        }
+                        seen += 1;
+                    }
+                    last_arr = Some(d);
+                }
+                _ => {}
+            }
+        }
+        if clean {
+            ctx.class("stream_xfr:claim-complete-stream");
+            if script.msgs.len() > 1 {
+                ctx.class("stream_xfr:claim-complete-stream-multi-message");
+            }
+            vensure!(
+                xo.end == XfrEnd::Eof && xo.msgs.len() == emitted.len(),
+                "stream_xfr:response-stream-incomplete",
+                "axfr request {k}: the peer sent {} messages in time on a live connection, the caller got {} and then {:?} at {} us; case: {}",
+                emitted.len(),
+                xo.msgs.len(),
+                xo.end,
+                xo.t_done,
+                render(c)
+            );
+        }
+        match &xo.end {
+            XfrEnd::Eof => ctx.class("stream_xfr:outcome-eof"),
+            _ => ctx.class("stream_xfr:outcome-err"),
+        }
+    }
+
+    // outcome classes
+    for o in &out {
+        match &o.res {
+            Some(Ok(_)) => dynclass(ctx, c.tr, format!("{t}:outcome-ok")),
+            Some(Err(e)) => {
+                dynclass(ctx, c.tr, format!("{t}:outcome-err"));
+                if e.contains("WrongReplyForQuery") {
+                    dynclass(ctx, c.tr, format!("{t}:outcome-wrong-reply-for-query"));
+                }
+            }
+            None => {}
+        }
+    }
+    if c.tr == Tr::Stream {
+        // slot reuse: the same ID received twice for different requests, and
+        // a reply for the first holder emitted after the second arrived
+        let mut seen: BTreeMap<u16, (usize, usize)> = BTreeMap::new();
+        let mut reused: BTreeMap<u16, (usize, usize)> = BTreeMap::new();
+        for (k, e) in ev.iter().enumerate() {
+            match &e.what {
+                What::Recv { req: Some(r), id, .. } => {
+                    if let Some((r0, _)) = seen.get(id) {
+                        if r0 != r {
+                            reused.insert(*id, (*r0, k));
+                            ctx.class("stream:id-recycled");
+                        }
+                    }
+                    seen.insert(*id, (*r, k));
+                }
+                What::Emit { for_req, bytes, .. } if bytes.len() >= 12 => {
+                    let hid = wire::header(bytes).unwrap().id;
+                    if let Some((r0, _)) = reused.get(&hid) {
+                        if r0 == for_req {
+                            ctx.class("stream:late-reply-meets-recycled-id");
+                        }
+                    }
+                }
+                _ => {}
+            }
+        }
+    }
+    Ok(())
+}
+
+//------------ Hook detection -----------------------------------------------------------
+
+/// The stream transport measures its timers with `std::time::Instant`
+/// unless the hook `C15-hook-stream-virtual-clock.patch` is applied (then
+/// `tokio::time::Instant` under `--cfg domain_verif`). Without the hook the
+/// timers do not follow the paused clock and stream-based cases would
+/// neither be deterministic nor terminate in bounded virtual time.
+fn stream_clock_is_virtual() -> bool {
+    static V: OnceLock<bool> = OnceLock::new();
+    *V.get_or_init(|| {
+        block_on_paused(async {
+            let w = World::new(names(1), vec![UpScript { reqs: vec![ReqScript::default()], st_buf: 65536, ..Default::default() }]);
+            let client = open_stream(&w, 0, 0);
+            let (conn, tr) = stream::Connection::<Req, RequestMessageMulti<Vec<u8>>>::new(client);
+            let run = tokio::spawn(tr.run());
+            let mut gr = SendRequest::send_request(&conn, build_request(&w.names[0], 0));
+            tokio::spawn(async move {
+                let _ = gr.get_response().await;
+            });
+            // The default response timeout is 19 s. With the hook the
+            // transport gives up after 19 s of virtual time and `run`
+            // returns; without it `run` keeps sleeping (in virtual time)
+            // until 19 s of real time have passed.
+            timeout(Duration::from_secs(200), run).await.is_ok()
+        })
+    })
+}
+
+fn run_tr(data: &[u8], ctx: &mut Ctx, tr: Tr) -> CaseResult {
+    if tr != Tr::Dgram && tr != Tr::Redundant && tr != Tr::Lb && !stream_clock_is_virtual() {
+        ctx.class("hook-missing");
+        return Ok(());
+    }
+    let c = decode(data, tr, ctx.thorough);
+    check(&c, ctx)
+}
+
+fn run_dgram(d: &[u8], ctx: &mut Ctx) -> CaseResult {
+    run_tr(d, ctx, Tr::Dgram)
+}
+fn run_stream(d: &[u8], ctx: &mut Ctx) -> CaseResult {
+    run_tr(d, ctx, Tr::Stream)
+}
+fn run_multi(d: &[u8], ctx: &mut Ctx) -> CaseResult {
+    run_tr(d, ctx, Tr::Multi)
+}
+fn run_dgstream(d: &[u8], ctx: &mut Ctx) -> CaseResult {
+    run_tr(d, ctx, Tr::DgStream)
+}
+fn run_redundant(d: &[u8], ctx: &mut Ctx) -> CaseResult {
+    run_tr(d, ctx, Tr::Redundant)
+}
+fn run_lb(d: &[u8], ctx: &mut Ctx) -> CaseResult {
+    run_tr(d, ctx, Tr::Lb)
+}
+fn run_xfr(d: &[u8], ctx: &mut Ctx) -> CaseResult {
+    run_tr(d, ctx, Tr::Xfr)
+}
+
+fn health(cl: &BTreeMap<String, u64>, _thorough: bool) -> Result<(), String> {
+    if cl.get("hook-missing").copied().unwrap_or(0) > 0 {
+        return Err("the stream transport's timers do not follow the paused clock: apply proposed_fixes/C15-hook-stream-virtual-clock.patch to the library (cfg domain_verif)".into());
+    }
+    let need: &[(&str, u64)] = &[
+        ("dgram:wrong-id", 50),
+        ("dgram:wrong-question", 50),
+        ("dgram:duplicate", 50),
+        ("dgram:cross-delivery", 30),
+        ("dgram:garbage-short", 30),
+        ("dgram:header-only-error", 50),
+        ("dgram:claim-must-ok", 200),
+        ("dgram:claim-needs-retry", 30),
+        ("stream:wrong-id-of-other-request", 50),
+        ("stream:wrong-question", 50),
+        ("stream:duplicate", 50),
+        ("stream:duplicate-same-segment", 20),
+        ("stream:frame-split", 50),
+        ("stream:close", 50),
+        ("stream:bad-length-then-close", 30),
+        ("stream:reorder", 50),
+        ("stream:claim-must-ok", 200),
+        ("stream:id-recycled", 30),
+        ("stream:late-reply-meets-recycled-id", 10),
+        ("multi_stream:close", 50),
+        ("multi_stream:connect-failure", 50),
+        ("dgram_stream:tc", 50),
+        ("dgram_stream:tc-fallback-expected", 30),
+        ("dgram_stream:claim-must-ok-udp", 100),
+        ("stream_xfr:claim-complete-stream-multi-message", 100),
+        ("stream_xfr:axfr-with-ordinary-requests", 100),
+        ("redundant:claim-must-ok", 50),
+        ("load_balancer:claim-must-ok", 50),
+    ];
+    for (k, min) in need {
+        let v = cl.get(*k).copied().unwrap_or(0);
+        if v < *min {
+            return Err(format!("class {k} starved ({v} < {min})"));
+        }
+    }
+    Ok(())
+}
 
 pub fn prop() -> Option<Prop> {
-    None
+    Some(Prop {
+        id: "C15",
+        rule: "a case = one client transport over scripted in-process peers, N requests with distinct question names, a fault script per request and upstream (reply kinds, delays, duplicates, frame splits, closes, connect failures) and a transport configuration, all decoded from the generated bytes; non-trivial = at least 2 requests on the transport and the script contains at least one of {replies in reverse order, duplicate, wrong ID, right ID with another request's question, cross-delivered datagram, close / bad length prefix}; distinct by the hash of the decoded case",
+        assumptions: &[
+            "tokio current-thread runtime with a paused clock: schedules are those of the deterministic executor times the generated delays; real sockets, kernel behaviour and multi-threaded executors are not covered",
+            "hook C15-hook-stream-virtual-clock (cfg domain_verif): stream.rs measures its timers with tokio::time::Instant so that they follow the paused clock",
+            "completion bound per request = 2 x nominal budget + 5 s of virtual time; nominal budgets: dgram n*(retries+1)*read_timeout (semaphore queue), stream sum of issue delays + n*(peer activity span + response_timeout) (the documented timer is per connection and restarts on every arriving message), multi_stream response_timeout, dgram_stream datagram budget + stream response_timeout, redundant/load_balancer (upstreams+1)*datagram budget",
+            "completeness is claimed only where the peers' log (streams) or the script (datagrams) shows an acceptable reply arriving more than 3 ms before the relevant timeout with no close, receive error or earlier reply carrying the same ID but failing is_answer (documented: WrongReplyForQuery) before it",
+            "library-internal randomness (message IDs, multi_stream retry back-off, redundant/load_balancer probing) is not controlled; oracles do not depend on it",
+            "the load balancer's locally generated SERVFAIL (all upstreams over their burst limit) is accepted as an answer when it carries the request's ID and question",
+        ],
+        subchecks: vec![
+            SubCheck::new("dgram", run_dgram, 60_000, 600_000, 700),
+            SubCheck::new("stream", run_stream, 60_000, 600_000, 700),
+            SubCheck::new("multi_stream", run_multi, 40_000, 400_000, 700),
+            SubCheck::new("dgram_stream", run_dgstream, 40_000, 400_000, 900),
+            SubCheck::new("redundant", run_redundant, 30_000, 250_000, 900),
+            SubCheck::new("load_balancer", run_lb, 30_000, 250_000, 900),
+            SubCheck::new("stream_xfr", run_xfr, 30_000, 250_000, 600),
+        ],
+        health: Some(health),
+        extra: Some(extra),
+    })
 }
